@@ -58,6 +58,10 @@ def _weights(d, rng, lead, N):
     if kind == 'zeros':
         idx = d.subset(N, 1, max(1, N // 3))
         s[..., idx] = 0
+    if d.aux(84).integers(0, 4) == 0:
+        # the unit of the saliency is arbitrary
+        s = s * 10.0 ** d.aux(85).uniform(-14, 4)
+        kind += '-scaled'
     return s, kind
 
 
